@@ -52,3 +52,42 @@ Example C13_nonvacuous :
   let s := run (init 1 [[OReady; ODispatch 1 false; ODispatch 2 false; ODispatch 3 false]]) (repeat 0%nat 60) in
   disc s = true /\ closed s = true /\ sent s = [1] /\ panicked s = false.
 Proof. vm_compute. repeat split. Qed.
+
+(* ---- hub level (Model/Hub.v; proofs in Proofs/HubProofs11.v) ---- *)
+From Mercure Require Hub HubProofs11.
+
+(* "after which it is no longer listed as a subscriber": in every reachable state of the hub (every schedule, both
+   transports, crashes anywhere), a subscriber whose handler has run its shutdown - it was cut off by an overflow,
+   its connection failed, the client left - is not in the index as long as the hub is not closed (a closed transport
+   refuses the removal); a subscriber that has not registered yet is never listed *)
+Theorem C13_not_listed_after_shutdown :
+  forall mt cap tracking persistent size reqs pubs sched i s,
+  let st := Hub.w_st (Hub.wrun mt cap tracking (Hub.winit persistent size reqs pubs) sched) in
+  nth_error (Hub.h_subs st) i = Some s ->
+  (Hub.hs_phase s = Hub.PRemoved \/ Hub.hs_phase s = Hub.PGone -> Hub.h_closed st = false -> ~ In i (Hub.h_index st)) /\
+  (Hub.hs_phase s = Hub.PNew \/ Hub.hs_phase s = Hub.PAnnounced -> ~ In i (Hub.h_index st)).
+Proof. exact HubProofs11.not_listed_after_shutdown. Qed.
+Print Assumptions C13_not_listed_after_shutdown.
+
+(* "other subscribers are unaffected": what a publish does to subscriber j is a function of subscriber j's own state -
+   two hubs that agree on j (and on the index) still agree on j after the same publish, whatever the other
+   subscribers are: slow, with a full buffer, cut off, or not there at all *)
+Theorem C13_others_unaffected :
+  forall mt cap st1 st2 u coin st1' st2' j,
+  Hub.h_index st1 = Hub.h_index st2 -> nth_error (Hub.h_subs st1) j = nth_error (Hub.h_subs st2) j ->
+  Hub.publish mt cap st1 u coin = (st1', Hub.PubOk) -> Hub.publish mt cap st2 u coin = (st2', Hub.PubOk) ->
+  nth_error (Hub.h_subs st1') j = nth_error (Hub.h_subs st2') j.
+Proof. exact HubProofs11.publish_local. Qed.
+Print Assumptions C13_others_unaffected.
+
+Example C13_hub_nonvacuous :
+  (* capacity 1, two subscribers; subscriber 0 never reads: the second publish cuts it off, its handler shuts down and it
+     leaves the index; subscriber 1 reads and gets both updates *)
+  let w := Hub.wrun (fun _ _ => true) 1 false (Hub.winit false 0 [Hub.NoReq; Hub.NoReq] [[1; 2]])
+             [Hub.ASub 0 true; Hub.ASub 0 true; Hub.ASub 0 true; Hub.ASub 0 true; Hub.ASub 0 true;
+              Hub.ASub 1 true; Hub.ASub 1 true; Hub.ASub 1 true; Hub.ASub 1 true; Hub.ASub 1 true;
+              Hub.APubCheck 0; Hub.APublish 0 true; Hub.ARecv 1; Hub.APubCheck 0; Hub.APublish 0 true; Hub.ARecv 1;
+              Hub.ARecv 0; Hub.ARecv 0; Hub.ASub 0 true; Hub.ASub 0 true] in
+  Hub.h_index (Hub.w_st w) = [1%nat] /\ map Hub.hs_recvd (Hub.h_subs (Hub.w_st w)) = [[1]; [1; 2]] /\
+  map Hub.hs_phase (Hub.h_subs (Hub.w_st w)) = [Hub.PGone; Hub.PLive 0].
+Proof. vm_compute. repeat split; reflexivity. Qed.
